@@ -31,9 +31,11 @@ package types
 
 //@ pred SigOK(sh) := Signed(pkraw(sh.Signer.PubKey.val), Payload(HdrOf(sh)), val(sh.Signature))
 
+// (C03: this is the first thing run on every header a third party can send - it rejects, it never panics)
 //@ func (sh *SignedHeader) ValidateBasic() (err)
 //@   property C04
 //@   property C01 C03
+//@   nopanic
 //@   ensures [basic] err == nil ==> (len(sh.ProposerAddress) > 0 && len(sh.Signature) > 0
 //@                       && val(sh.ProposerAddress) == val(sh.Signer.Address) && SigOK(sh) && sh.Signer.PubKey != nil)
 //@   ensures [key-is-address] err == nil ==> AddrOf(pkraw(sh.Signer.PubKey.val)) == val(sh.ProposerAddress)
